@@ -45,8 +45,9 @@ theorem writeF_mono {f : FieldDesc} {o : WOp} {v x : Val} (h : Reflect.writeF S 
   · simp only [FieldDesc.zero, hs, FW.put.injEq] at h
     subst h; simp [Val.isNone] at hx
   · cases he : f.elem <;> simp only [he, reduceCtorEq] at h
-    cases v <;> simp only [FW.put.injEq, reduceCtorEq] at h
-    rfl
+    cases v with
+    | one y => rfl
+    | _ => simp at h
 end
 
 theorem WOp.field?_abs (c : Nat → Val → Val) (fs : List FieldDesc) (o : WOp) :
